@@ -89,7 +89,10 @@ type c15Server struct {
 func c15Start(mode string, idx int) *c15Server {
 	s := &c15Server{}
 	if mode == "refused" {
-		l, _ := net.Listen("tcp", "127.0.0.1:0")
+		// a port nobody listens on, on a loopback address of its own: every test server of this harness (and of any
+		// check running in parallel) binds 127.0.0.1, so the kernel can hand the port number out again without the
+		// "refused" upstream coming back to life (which happened once: see DESIGN §11)
+		l, _ := net.Listen("tcp", "127.0.0.2:0")
 		s.uri = "http://" + l.Addr().String()
 		l.Close()
 		return s
